@@ -141,6 +141,7 @@ var ppFree = sync.Pool{
 // newPrinter allocates a new pp struct or grabs a cached one.
 func newPrinter() *pp {
 	p := ppFree.Get().(*pp)
+	p = verifPoolGet(p)
 	p.panicking = false
 	p.erroring = false
 	p.wrapErrs = false
@@ -164,6 +165,9 @@ func (p *pp) free() {
 	p.arg = nil
 	p.value = reflect.Value{}
 	p.wrappedErr = nil
+	if verifPoolPut(p) {
+		return
+	}
 	ppFree.Put(p)
 }
 
